@@ -69,7 +69,7 @@ let run inp obs : string option * string option =
           else if get t1 k <> get t0 k then Some (Printf.sprintf "response trailer %S differs from the baseline call: handler metadata changed a protected key" (bytes_str k))
           else None) prot in
     let r1 = Stdlib.List.find_map (check_present "header" h1) hmd in
-    let r2 = if proto = "http" then None else Stdlib.List.find_map (check_present "trailer" t1) tmd in
+    let r2 = if proto = "http" || proto = "twirp" then None else Stdlib.List.find_map (check_present "trailer" t1) tmd in
     (match forged, r1, r2 with
      | Some e, _, _ | None, Some e, _ | None, None, Some e -> (Some e, None)
      | None, None, None -> (None, None))
